@@ -2,6 +2,9 @@
 
 spec/Partition.tla (+ PartitionCheck.tla: TLC judges the dumps, PartitionGen.tla: TLC enumerates all cell->rank
 assignments), spec/MeshGen.tla (two-cell gluings as base meshes), harness/c12_parti.cpp.
+Two-layer (recursive) partitioning - PatchHaloSplitter / PatchMeshPartSplitter, the route of PartiDomainControl with more
+than one layer: spec/Partition2L.tla (+ Partition2LCheck.tla, PartitionGen2L.tla: TLC enumerates all two-level set
+partitions), harness/c12_twolayer.cpp.
 """
 import glob, json, os, random, re, shutil, time
 import concurrent.futures as cf
@@ -47,24 +50,24 @@ def small_meshes(files):
 
 def sig(c, pred, lev):
     return {"kind": c["parti"]["kind"], "src": c["srcname"], "fam": c["fam"], "dim": c["dim"], "pred": pred, "level": lev,
-            "nranks": c["parti"].get("n", len(c["parti"].get("ranks", [])))}
+            "nranks": c["parti"].get("n", sum(len(p) for p in c["parti"]["parents"]) if "parents" in c["parti"] else len(c["parti"].get("ranks", [])))}
 
 
 def run(chk):
     tier = chk.tier
     rng = random.Random(vlib.seed())
-    binary, = vlib.build(["c12_parti"])
+    binary, binary2 = vlib.build(["c12_parti", "c12_twolayer"])
     gdir = os.path.join(vlib.BUILD, "gen", "C12", "run_%d" % os.getpid())
     os.makedirs(gdir, exist_ok=True)
     try:
-        _run(chk, tier, rng, binary, gdir)
+        _run(chk, tier, rng, binary, binary2, gdir)
     finally:
         shutil.rmtree(gdir, ignore_errors=True)
         for p in glob.glob(os.path.join(vlib.SPEC, "gen_c12_%d_*.cfg" % os.getpid())):
             os.remove(p)
 
 
-def _run(chk, tier, rng, binary, gdir):
+def _run(chk, tier, rng, binary, binary2, gdir):
     files = [f for f in mesh_files() if f["name"] not in EXCLUDED_FILES]
     thorough = tier == "thorough"
 
@@ -76,6 +79,11 @@ def _run(chk, tier, rng, binary, gdir):
         with open(os.path.join(vlib.SPEC, cfg), "w") as f:
             f.write("SPECIFICATION Spec\nCONSTANTS NCells = %d Canon = %s\nINVARIANTS IsPartition Emit\nCHECK_DEADLOCK FALSE\n" % (n, "TRUE" if canon else "FALSE"))
         jobs.append(("PartitionGen", cfg, ("assign", n)))
+    for n in range(2, 7 if thorough else 6):
+        cfg = "gen_c12_%d_t%d.cfg" % (os.getpid(), n)
+        with open(os.path.join(vlib.SPEC, cfg), "w") as f:
+            f.write("SPECIFICATION Spec\nCONSTANTS NCells = %d\nINVARIANTS IsTwoLevelPartition Emit\nCHECK_DEADLOCK FALSE\n" % n)
+        jobs.append(("PartitionGen2L", cfg, ("twolevel", n)))
     gens = [("hypercube", 2, "pair"), ("simplex", 2, "pair"), ("hypercube", 3, "pair"), ("simplex", 3, "pair"), ("hypercube", 2, "chain"), ("simplex", 2, "chain")]
     for k, (fam, dim, mode) in enumerate(gens):
         cfg = "gen_c12_%d_m%d.cfg" % (os.getpid(), k)
@@ -83,7 +91,7 @@ def _run(chk, tier, rng, binary, gdir):
             f.write("SPECIFICATION Spec\nCONSTANTS Fam = \"%s\" Dim = %d Mode = \"%s\" PartLevel = 0\n"
                     "INVARIANTS AllPositive Conforming GluedOnFacet Emit\nCHECK_DEADLOCK FALSE\n" % (fam, dim, mode))
         jobs.append(("MeshGen", cfg, ("mesh", fam, dim, mode)))
-    assigns, genmeshes = {}, []
+    assigns, genmeshes, twolevel = {}, [], {}
     with cf.ThreadPoolExecutor(max_workers=6) as ex:
         futs = [(ex.submit(vlib.tlc, j[0], j[1], timeout=900, xmx="2g"), j) for j in jobs]
         for fu, (mod, cfg, what) in futs:
@@ -94,10 +102,13 @@ def _run(chk, tier, rng, binary, gdir):
                 continue
             if what[0] == "assign":
                 assigns[what[1]] = [p["ranks"] for p in r.printed]
+            elif what[0] == "twolevel":
+                twolevel[what[1]] = [p["parents"] for p in r.printed]
             else:
                 for i, c in enumerate(r.printed):
                     genmeshes.append(("gen:%s" % what[3], what[1], what[2], c["src"], 2 if what[3] == "pair" else 3, i))
     chk.extra["assignments_enumerated"] = {str(n): len(a) for n, a in assigns.items()}
+    chk.extra["two_level_partitions_enumerated"] = {str(n): len(a) for n, a in twolevel.items()}
     vlib.log("[C12] generation done %.1fs" % (time.time() - chk.t0))
 
     cases = []
@@ -180,6 +191,37 @@ def _run(chk, tier, rng, binary, gdir):
                 {"kind": "explicit", "ranks": [[c for c in range(nc) if asg[c] == r] for r in range(n)]}, 2 if dim == 2 else 1, maxcells)
     chk.extra["sampled_cases"] = len(cases) - nexh
 
+    # ---- 2b. two-layer partitioning: every small mesh x every two-level set partition (both rank orders) ----
+    cases2 = []
+
+    def add2(name, fam, dim, src, parents, nref=1):
+        cid = "t%d" % len(cases2)
+        cases2.append({"id": cid, "srcname": name, "fam": fam, "dim": dim, "src": src, "parti": {"kind": "twolayer", "parents": parents},
+                       "nref": nref, "fileparts": 1, "bndpart": 1, "out": os.path.join(gdir, cid + ".json")})
+    for name, fam, dim, src, n in small_meshes(files):
+        for pp in twolevel.get(n, []):
+            add2(name, fam, dim, src, pp)
+    nexh2 = len(cases2)
+    # sampled: seeded random two-level partitions of larger structured meshes (incl. the 4x4 mesh with an L-shaped parent)
+    big = [("struct4x4", "hypercube", 2, {"fac": "struct", "nx": 4, "ny": 4}, 16), ("struct3x3", "hypercube", 2, {"fac": "struct", "nx": 3, "ny": 3}, 9),
+           ("struct2x2x2", "hypercube", 3, {"fac": "struct", "nx": 2, "ny": 2, "nz": 2}, 8), ("tri-struct2x2", "simplex", 2, {"fac": "struct", "nx": 2, "ny": 2}, 16),
+           ("struct3x2x2", "hypercube", 3, {"fac": "struct", "nx": 3, "ny": 2, "nz": 2}, 12)]
+    for name, fam, dim, src, nc in big:
+        for k in range(60 if thorough else 12):
+            npar = rng.randint(2, 4)
+            pa_ = list(range(npar)) + [rng.randrange(npar) for _ in range(nc - npar)]
+            rng.shuffle(pa_)
+            parents = []
+            for p in range(npar):
+                cells = [c for c in range(nc) if pa_[c] == p]
+                nch = rng.randint(1, min(3, len(cells)))
+                ca = list(range(nch)) + [rng.randrange(nch) for _ in range(len(cells) - nch)]
+                rng.shuffle(ca)
+                parents.append([[cells[i] for i in range(len(cells)) if ca[i] == q] for q in range(nch)])
+            add2(name, fam, dim, src, parents)
+    chk.extra["two_layer_exhaustive_cases"] = nexh2
+    chk.extra["two_layer_sampled_cases"] = len(cases2) - nexh2
+
     # ---- 3. the real code ----
     res = vlib.run_cases(binary, cases, tmo=120, shards=8)
     good = []
@@ -218,7 +260,45 @@ def _run(chk, tier, rng, binary, gdir):
         for fl in v["fails"]:
             chk.violation(sig(c, fl["p"], fl["l"]), "%s (%s, %s): %s does not hold at level %d" % (d["id"], c["srcname"], json.dumps(c["parti"])[:200], fl["p"], fl["l"]),
                           {"kind": "case", "harness": "c12_parti", "case": slim, "verdict": v, "assign": d["assign"]})
-    chk.traces = len(full)
+    vlib.log("[C12] single layer judged %.1fs" % (time.time() - chk.t0))
+
+    # ---- 5. two-layer route: real code, then TLC composes child -> parent -> base and judges both layers ----
+    res2 = vlib.run_cases(binary2, cases2, tmo=120, shards=8)
+    good2 = []
+    for c, rr in zip(cases2, res2):
+        chk.count("2L:" + c["id"], True)
+        if rr.get("ok") is True and rr.get("skip"):
+            chk.extra["skipped"] = chk.extra.get("skipped", 0) + 1
+            continue
+        if rr.get("ok") is True:
+            good2.append(c)
+            continue
+        desc = rr.get("why") or ("outcome %s: %s" % (rr.get("outcome"), (rr.get("stderr") or "")[:700]))
+        sg = sig(c, "harness:" + str(rr.get("outcome", "bad")), -1)
+        sg["layer"] = ""
+        chk.violation(sg, "%s (%s, two-layer %s): %s" % (c["id"], c["srcname"], json.dumps(c["parti"]["parents"])[:200], desc),
+                      {"kind": "case", "harness": "c12_twolayer", "case": {k: c[k] for k in c if k != "out"}, "result": rr})
+    byid2 = {c["id"]: c for c in good2}
+    items2 = [{"id": c["id"], "path": c["out"], "weight": 3000 + os.path.getsize(c["out"]), "extra": {"wantlevels": c["nref"] + 1}} for c in good2]
+    verdicts2, infos2 = vmeshlib.run_tlc_stream(chk, "Partition2LCheck", "C12_BATCH2", items2, "c12b", prepare="load_c12", max_procs=6, cap_weight=12000000)
+    cross = single2 = 0
+    for c in good2:
+        v = verdicts2.get(c["id"])
+        if v is None:
+            raise vlib.MachineryError("no verdict for " + c["id"])
+        cross += v["info"]["cross"]
+        single2 += v["info"]["single"]
+        for fl in v["fails"]:
+            sg = sig(c, fl["p"], fl["l"])
+            sg["layer"] = fl["part"]
+            chk.violation(sg, "%s (%s, two-layer %s): %s does not hold for the %s layer at level %d" % (
+                c["id"], c["srcname"], json.dumps(c["parti"]["parents"])[:200], fl["p"], fl["part"] or "?", fl["l"]),
+                {"kind": "case", "harness": "c12_twolayer", "case": {k: c[k] for k in c if k != "out"}, "verdict": v})
+    chk.extra["two_layer_cross_parent_neighbour_pairs"] = cross
+    chk.extra["two_layer_cross_pairs_touching_in_one_vertex"] = single2
+    for c in good2[:1]:
+        chk.sample({"id": c["id"], "src": c["srcname"], "two_layer": c["parti"]["parents"], "verdict": verdicts2[c["id"]]})
+    chk.traces = len(full) + len(good2)
     chk.extra["partitioner_reported_failure"] = nfail2lvl
     chk.extra["neighbour_pairs_touching_in_one_vertex"] = single
     chk.extra["max_ranks"] = max([d["nranks"] for d in full] or [0])
@@ -227,10 +307,15 @@ def _run(chk, tier, rng, binary, gdir):
     chk.rule = ("TLC enumerates (spec/PartitionGen.tla) every assignment of the cells to 1..#cells non-empty ranks for all base meshes with <= 6 cells "
                 "(quick: one labelling per set partition for 5 and 6 cells) and for the two-/three-cell gluings of spec/MeshGen.tla; plus Parti2Lvl for "
                 "n = 1..16, PartiIterative, the manual partitions stored in the mesh files and seeded random assignments on shipped meshes; every case = "
-                "extract_patch for every rank + joint refinement, all levels judged by TLC against spec/Partition.tla; distinct = mesh x assignment")
+                "extract_patch for every rank + joint refinement, all levels judged by TLC against spec/Partition.tla; distinct = mesh x assignment. "
+                "Two-layer route: TLC enumerates (spec/PartitionGen2L.tla) every two-level set partition (parents, children inside each parent; both "
+                "rank orders) for all base meshes with <= 5 (thorough 6) cells, plus seeded random two-level partitions of 3x3/4x4/2x2x2/3x2x2 meshes; "
+                "each case = parent extract_patch, child extract_patch on the parent nodes, PatchHaloSplitter for the cross-parent halos, joint "
+                "refinement; TLC composes the maps and judges parent and child layer (spec/Partition2L.tla)")
     for d in full[:2]:
         chk.sample({"id": d["id"], "src": byid[d["id"]]["srcname"], "assign": d["assign"], "verdict": verdicts[d["id"]]})
-    chk.assumptions = ["extract_patch is called serially for every rank on one base node (no communicator); the MPI route through PartiDomainControl is not exercised",
+    chk.assumptions = ["extract_patch is called serially for every rank on one base node (no communicator); the multi-layer route of PartiDomainControl is reproduced "
+                       "serially (same calls in the same order as _split_basemesh_halos, buffers concatenated instead of sent); MPI itself is not exercised",
                        "PartiIterative seeds itself from time(): its runs are not reproducible from VERIF_SEED (the invariants must hold for every outcome)",
                        "adaption to charts is switched off (AdaptMode::none)"]
 
